@@ -257,7 +257,14 @@ def key_exprs(draw, cols, t=None):
     e = draw(exprs(t, [c for c in cols if c[0] != 'rid'], draw(st.integers(0, 2))))
     if not any(n[0] == 'col' for n in bql.walk(e)):
         # constant keys fold to equal constants and collide with each other (C05 known finding)
-        return ['mod', ['col', 'rid'], bql.const(draw(st.integers(2, 3)))], 'int'
+        if ('rid', 'int') in [tuple(c) for c in cols]:
+            return ['mod', ['col', 'rid'], bql.const(draw(st.integers(2, 3)))], 'int'
+        keyed = [(n, ty) for n, ty in cols if ty in KEYTYPES]
+        if keyed:
+            n, ty = draw(st.sampled_from(keyed))
+            return ['col', n], ty
+        n, ty = cols[0]
+        return ['isnull', ['col', n]], 'bool'
     return e, t
 
 
@@ -358,7 +365,7 @@ def plain_selects(draw, table, order=None, distinct=None, limit=None, where=None
     """Non-aggregate SELECT over table (IR)."""
     cols = table['cols']
     tl = draw(targets(cols, 1, max_targets, depth=2, types=types))
-    if draw(st.booleans()):
+    if draw(st.booleans()) and any(n == 'rid' for n, _ in cols):
         tl.append((['col', 'rid'], None))
     w = draw(st.none() | exprs('bool', cols, 2)) if where is None else (draw(exprs('bool', cols, 2)) if where else None)
     ob = None
